@@ -172,6 +172,7 @@ pub fn run_shard(ctx: &mut Ctx) {
     let mut r = Rng::new(ctx.shard_seed());
     let quick_recs = 1500u64;
     let mut i = 0u64;
+    let mut big: Vec<Vec<u8>> = vec![];
     // deterministic part: every kind x option combination x boundary integers (shard 0 only)
     if ctx.shard == 0 {
         let mut all = vec![];
@@ -304,6 +305,15 @@ pub fn run_shard(ctx: &mut Ctx) {
             muts.push(("random".into(), b));
         }
         for (kind, b) in &muts {
+            // An input that declares a string of more than 16 MiB makes the decoder allocate that much before it
+            // notices the input is short. Whether such an allocation succeeds depends on the memory the machine has
+            // free at that moment (an allocation failure aborts the process, it cannot be caught), so these inputs
+            // are decoded in a sacrificial child process.
+            if refcodec::declared_alloc(b) > (16 << 20) {
+                big.push(b.clone());
+                ctx.out.count(&format!("mutation:{}(declares_more_than_16MiB)", kind), 1);
+                continue;
+            }
             ctx.out.evaluations += 1;
             ctx.out.count("decodes", 1);
             ctx.out.count(&format!("mutation:{}", kind), 1);
@@ -314,7 +324,62 @@ pub fn run_shard(ctx: &mut Ctx) {
             }
         }
     }
-    // file-name codec belongs to C11 but is cheap to exercise here too: no.
+    // the inputs with giant declared lengths: a sample of them, in a child process
+    if !big.is_empty() {
+        let n = big.len();
+        let take = if ctx.tier == Tier::Quick { 40 } else { 400 };
+        let step = (n / take).max(1);
+        let sample: Vec<&Vec<u8>> = big.iter().step_by(step).take(take).collect();
+        let path = format!("{}/big-{}.txt", util::scratch_root(), ctx.shard);
+        let _ = std::fs::create_dir_all(util::scratch_root());
+        let body: String = sample.iter().map(|b| util::hex(b)).collect::<Vec<_>>().join("\n");
+        if std::fs::write(&path, body).is_ok() {
+            let exe = std::env::current_exe().ok();
+            let out = exe.and_then(|e| std::process::Command::new(e).args(["c12-big", &path]).output().ok());
+            match out {
+                Some(o) if o.status.success() => {
+                    let so = String::from_utf8_lossy(&o.stdout);
+                    for l in so.lines() {
+                        if let Some(rest) = l.strip_prefix("BIG-VIOL ") {
+                            let mut it = rest.splitn(3, ' ');
+                            let sig = it.next().unwrap_or("C12:big").to_string();
+                            let hexs = it.next().unwrap_or("");
+                            let text = it.next().unwrap_or("").to_string();
+                            ctx.out.viol(Viol { prop: "C12".into(), sig, text, replay: json!({"kind": "codec", "bytes_hex": hexs, "full_len": hexs.len() / 2}) });
+                        } else if let Some(k) = l.strip_prefix("BIG-OK ") {
+                            let k: u64 = k.trim().parse().unwrap_or(0);
+                            ctx.out.count("decodes", k);
+                            ctx.out.evaluations += k;
+                            ctx.out.count("decodes_of_inputs_declaring_16MiB_to_4GiB(child_process)", k);
+                        }
+                    }
+                }
+                Some(o) => {
+                    // killed by the allocator / OOM: environment, not a verdict
+                    ctx.out.count("giant_allocation_batches_not_observed(child_died)", 1);
+                    let _ = o;
+                }
+                None => ctx.out.count("giant_allocation_batches_not_observed(child_not_started)", 1),
+            }
+            let _ = std::fs::remove_file(&path);
+        }
+    }
+}
+
+/// Child: decode inputs that declare giant lengths. One line of hex per input.
+pub fn big_child(args: &[String]) -> i32 {
+    let Some(p) = args.get(2) else { return 2 };
+    let Ok(s) = std::fs::read_to_string(p) else { return 2 };
+    let mut ok = 0u64;
+    for l in s.lines() {
+        let b = util::unhex(l.trim());
+        match check_arbitrary(&b) {
+            Ok(_) => ok += 1,
+            Err(v) => println!("BIG-VIOL {} {} {}", v.sig, util::hex(&b[..b.len().min(200)]), v.text.replace('\n', " ")),
+        }
+    }
+    println!("BIG-OK {}", ok);
+    0
 }
 
 fn field_at(fields: &[(usize, usize, refcodec::Field)], p: usize) -> &'static str {
